@@ -14,7 +14,7 @@ PROP = {
             "Non-trivial = every case; distinct = distinct input JSON.",
     "tags": {"1": "group: delivered, flat members", "2": "group: a member never completes, nothing delivered", "3": "group with a nested group",
              "10-13": "gated hook: 10+2*frontend+mode (frontend 0 UDP / 1 HTTP; mode 0 pre-hook gated, 1 post-response hook gated)",
-             "20/21": "NewFrontend;Stop race UDP/HTTP", "30/31": "requests then Stop, goroutines UDP/HTTP", "40-43": "reload history with 0/1/2/3+ reloads",
+             "20/21/22": "NewFrontend;Stop race UDP/HTTP, metrics.NewServer;Stop on one processor", "30/31": "requests then Stop, goroutines UDP/HTTP", "40-43": "reload history with 0/1/2/3+ reloads",
              "50/51": "Stop(everything) with a pending post-response hook, UDP/HTTP",
              "60-62": "middleware.Logic.Stop: no JWT hook / JWT refresh idle / JWT refresh inside a fetch that never completes",
              "70-72": "HTTP Frontend.Stop with listener Close errors injected: both servers / http only / https only"},
